@@ -13,7 +13,7 @@ CFG = dict(
                "(iter_segments on every well-formed slice list and element list is total, every token's source range = map_spec of "
                "its own rendered range, tokens tile the elements, only whitespace is split and only at literal-slice ends, the tokens "
                "of an element are a function of the slice list and that element alone); C15_process_lex (composition + ranges inside "
-               "the source). The repaired iter_segments (fix 7ed96a0) is what is modelled; the pre-repair loop is kept as "
+               "the source). The repaired iter_segments (fix 7940035) is what is modelled; the pre-repair loop is kept as "
                "iter_segments_legacy with four _refuted witnesses. Model tied to the code on every run by three correspondences "
                "(process, lex on real templated files, lex on synthetic slice lists) plus direct observation of the property.",
     level_note="Trusted: Coq kernel; the hand-written model (tie = sampled correspondence: quick ~1.8k templated sources x 13 styles, "
